@@ -60,8 +60,8 @@ PROPS = {
         "not_covered": [
             "Client::register: client data JSON, base64url challenge, attestation object CBOR, byte-identical "
             "authenticator data copies, DER vs COSE key, 'valid P-256 point' (serde / ciborium / p256 code)",
-            "choose_algorithm (iterator chain): 'first supported entry' is an assumed contract (element of the "
-            "list or UnsupportedAlgorithm); checked separately by a bounded Kani harness in the thorough tier",
+            "choose_algorithm is proved ('first supported entry') over a trusted model of slice::Iter::find (rule R19); "
+            "the bounded Kani harness K-CHOOSE-ALG checks the same statement on the compiled crate",
             "the client-side default algorithm list",
         ],
     },
